@@ -65,6 +65,7 @@ def main(ctx, replay=None):
     if not aux:
         raise MachineryError("ConfigSpace did not export the secondary settings")
     NTS, QORDERS, VRATIOS = (sorted(x) for x in aux[0][1:4])
+    DEFAULT_MG = aux[0][4]
     ctx.cov["configurations_enumerated"] = len(allc)
     if len(allc) < 20000:
         raise MachineryError(f"ConfigSpace enumerated only {len(allc)} configurations")
@@ -107,8 +108,11 @@ def main(ctx, replay=None):
             settings = {"T_MIN": tmin, "DT": dt, "NT": nt, "NTV": 9, "order": qorder, "volume_ratio": vratio}
             kw = dict(nv=int(c["nv"]), lattice=bool(c["lattice"]), interpolator=c["interp"], order=int(c["order"]), settings=settings)
             ds = free_dataset(rng, extra_shear=int(rng.integers(2, 10)), **kw) if c["system"] == "none" else system_dataset(rng, exports, c["system"], **kw)
+            # leave to the packaged defaults what equals them (half of the time): the settings file then has a partial mode_gamma group
+            ds.omit = {f for f, key in (("interpolator", "interp"), ("order", "order")) if c[key] == DEFAULT_MG[key] and rng.random() < 0.5}
             d = wd.sub(f"c{n}")
             case = {k: c[k] for k in ("interp", "order", "nv", "system", "tmin", "dt", "lattice")}
+            case["left_to_defaults"] = sorted(ds.omit)
             case.update(nt=nt, qha_order=qorder, volume_ratio=vratio)
             ctx.count(case)
             sig = {"interp": c["interp"]}
